@@ -11,3 +11,7 @@ def hexs(bs):
 
 def lst(xs):
     return 'l:' + ','.join(str(x) for x in xs)
+
+# every translator runs on every check (so that no generated file is ever stale);
+# a failure breaks only the properties that list the translator as their own
+ALL_TRANSLATORS = [('crc2coq.py', ['coq/Gen/CrcGen.v'])]
